@@ -2,6 +2,7 @@ package props
 
 import (
 	"fmt"
+	"go/constant"
 	"go/token"
 	"go/types"
 	"sort"
@@ -137,60 +138,274 @@ func buildInto(a *nfa, fn *ssa.Function, o langOpts, depth int, entry, exit int,
 	}
 	stack[fn] = true
 	defer delete(stack, fn)
-	// state before each instruction
-	st := map[*ssa.BasicBlock][]int{}
-	for _, b := range fn.Blocks {
-		arr := make([]int, len(b.Instrs)+1)
-		for i := range arr {
-			arr[i] = a.state()
+	// state before each instruction; the blocks of a counted loop (a loop whose
+	// trip count is a compile-time constant, e.g. a range over an array literal)
+	// get one copy per visit of the header, so the loop contributes exactly
+	// that many iterations to the language and not a star
+	loops := countedLoops(fn)
+	loopOf := map[*ssa.BasicBlock]*countedLoop{}
+	for _, l := range loops {
+		for b := range l.body {
+			loopOf[b] = l
 		}
-		st[b] = arr
 	}
-	a.addEps(entry, st[fn.Blocks[0]][0])
+	st := map[*ssa.BasicBlock][][]int{}
+	for _, b := range fn.Blocks {
+		copies := 1
+		if l := loopOf[b]; l != nil {
+			copies = l.n + 1
+		}
+		for k := 0; k < copies; k++ {
+			arr := make([]int, len(b.Instrs)+1)
+			for i := range arr {
+				arr[i] = a.state()
+			}
+			st[b] = append(st[b], arr)
+		}
+	}
+	// target returns the entry state of succ when left from copy k of from
+	target := func(from *ssa.BasicBlock, k int, succ *ssa.BasicBlock) (int, bool) {
+		l := loopOf[succ]
+		if l == nil {
+			return st[succ][0][0], true
+		}
+		if loopOf[from] != l {
+			return st[succ][0][0], true
+		}
+		if succ == l.header {
+			if k+1 > l.n {
+				return 0, false
+			}
+			return st[succ][k+1][0], true
+		}
+		return st[succ][k][0], true
+	}
+	a.addEps(entry, st[fn.Blocks[0]][0][0])
 	for _, b := range fn.Blocks {
 		if b.Comment == "recover" {
 			continue
 		}
-		for i, in := range b.Instrs {
-			s, t := st[b][i], st[b][i+1]
-			switch x := in.(type) {
-			case *ssa.Return:
-				if o.success(fn, x) {
-					a.addEps(s, exit)
-				}
-				continue
-			case *ssa.Panic:
-				continue
-			case *ssa.If:
-				for si, succ := range b.Succs {
-					if !edgeKept(x, si, o) {
-						continue
+		for k := range st[b] {
+			for i, in := range b.Instrs {
+				s, t := st[b][k][i], st[b][k][i+1]
+				switch x := in.(type) {
+				case *ssa.Return:
+					if o.success(fn, x) {
+						a.addEps(s, exit)
 					}
-					a.addEps(s, st[succ][0])
+					continue
+				case *ssa.Panic:
+					continue
+				case *ssa.If:
+					for si, succ := range b.Succs {
+						if l := loopOf[b]; l != nil && l.header == b {
+							if l.taken[k] != si {
+								continue
+							}
+						} else if !edgeKept(x, si, o) {
+							continue
+						}
+						if tg, ok := target(b, k, succ); ok {
+							a.addEps(s, tg)
+						}
+					}
+					continue
+				case *ssa.Jump:
+					if tg, ok := target(b, k, b.Succs[0]); ok {
+						a.addEps(s, tg)
+					}
+					continue
 				}
-				continue
-			case *ssa.Jump:
-				a.addEps(s, st[b.Succs[0]][0])
-				continue
-			}
-			d := o.classify(fn, in)
-			switch d.kind {
-			case akAtom:
-				a.addTr(s, d.label, t)
-				if _, ok := a.atomAt[d.label]; !ok {
-					a.atomAt[d.label] = o.p.Pos(in.Pos())
+				d := o.classify(fn, in)
+				switch d.kind {
+				case akAtom:
+					a.addTr(s, d.label, t)
+					if _, ok := a.atomAt[d.label]; !ok {
+						a.atomAt[d.label] = o.p.Pos(in.Pos())
+					}
+				case akInline:
+					ent, ext := a.state(), a.state()
+					a.addEps(s, ent)
+					a.addEps(ext, t)
+					buildInto(a, d.inline, o, depth+1, ent, ext, stack)
+				case akDead:
+				default:
+					a.addEps(s, t)
 				}
-			case akInline:
-				ent, ext := a.state(), a.state()
-				a.addEps(s, ent)
-				a.addEps(ext, t)
-				buildInto(a, d.inline, o, depth+1, ent, ext, stack)
-			case akDead:
-			default:
-				a.addEps(s, t)
 			}
 		}
 	}
+}
+
+// countedLoop is a natural loop whose header tests a unit-step counter with a
+// constant initial value against a constant: visit k of the header (k = 0..n)
+// leaves through successor taken[k]; visits 0..n-1 enter the body, visit n exits.
+type countedLoop struct {
+	header *ssa.BasicBlock
+	body   map[*ssa.BasicBlock]bool
+	n      int
+	taken  []int
+}
+
+const maxCountedTrips = 16
+
+// countedLoops returns the outermost counted loops of fn.
+func countedLoops(fn *ssa.Function) []*countedLoop {
+	var out []*countedLoop
+	for _, h := range fn.Blocks {
+		if len(h.Instrs) == 0 || len(h.Succs) != 2 {
+			continue
+		}
+		ifi, ok := h.Instrs[len(h.Instrs)-1].(*ssa.If)
+		if !ok {
+			continue
+		}
+		// natural loop of the back edges into h
+		body := map[*ssa.BasicBlock]bool{h: true}
+		var work []*ssa.BasicBlock
+		outside := 0
+		for _, p := range h.Preds {
+			if h.Dominates(p) {
+				if !body[p] {
+					body[p] = true
+					work = append(work, p)
+				}
+			} else {
+				outside++
+			}
+		}
+		if len(body) == 1 && !func() bool {
+			for _, p := range h.Preds {
+				if p == h {
+					return true
+				}
+			}
+			return false
+		}() {
+			continue
+		}
+		for len(work) > 0 {
+			x := work[len(work)-1]
+			work = work[:len(work)-1]
+			for _, p := range x.Preds {
+				if !body[p] {
+					body[p] = true
+					work = append(work, p)
+				}
+			}
+		}
+		// the counter: a phi of h with one constant edge from outside and one
+		// edge from inside that is the phi plus a constant
+		for _, in := range h.Instrs {
+			ph, ok := in.(*ssa.Phi)
+			if !ok {
+				break
+			}
+			if len(ph.Edges) != 2 || outside != 1 {
+				continue
+			}
+			var init, step int64
+			okInit, okStep := false, false
+			for i, e := range ph.Edges {
+				if body[h.Preds[i]] {
+					if bo, ok := e.(*ssa.BinOp); ok && (bo.Op == token.ADD || bo.Op == token.SUB) && bo.X == ph {
+						if k, ok := intConstOf(bo.Y); ok {
+							step, okStep = k, true
+							if bo.Op == token.SUB {
+								step = -k
+							}
+						}
+					}
+				} else if k, ok := intConstOf(e); ok {
+					init, okInit = k, true
+				}
+			}
+			if !okInit || !okStep || step == 0 {
+				continue
+			}
+			var eval func(v ssa.Value, c int64, d int) (int64, bool)
+			eval = func(v ssa.Value, c int64, d int) (int64, bool) {
+				if v == ph {
+					return c, true
+				}
+				if k, ok := intConstOf(v); ok {
+					return k, true
+				}
+				if bo, ok := v.(*ssa.BinOp); ok && d < 4 && (bo.Op == token.ADD || bo.Op == token.SUB) {
+					x, ok1 := eval(bo.X, c, d+1)
+					y, ok2 := eval(bo.Y, c, d+1)
+					if ok1 && ok2 {
+						if bo.Op == token.ADD {
+							return x + y, true
+						}
+						return x - y, true
+					}
+				}
+				return 0, false
+			}
+			cmp, ok := ifi.Cond.(*ssa.BinOp)
+			if !ok {
+				continue
+			}
+			var taken []int
+			done := false
+			for k := 0; k <= maxCountedTrips; k++ {
+				c := init + int64(k)*step
+				x, ok1 := eval(cmp.X, c, 0)
+				y, ok2 := eval(cmp.Y, c, 0)
+				if !ok1 || !ok2 {
+					break
+				}
+				var val bool
+				switch cmp.Op {
+				case token.LSS:
+					val = x < y
+				case token.LEQ:
+					val = x <= y
+				case token.GTR:
+					val = x > y
+				case token.GEQ:
+					val = x >= y
+				case token.NEQ:
+					val = x != y
+				case token.EQL:
+					val = x == y
+				default:
+					ok1 = false
+				}
+				if !ok1 {
+					break
+				}
+				si := 1
+				if val {
+					si = 0
+				}
+				taken = append(taken, si)
+				if !body[h.Succs[si]] {
+					done = true
+					break
+				}
+			}
+			if done {
+				out = append(out, &countedLoop{header: h, body: body, n: len(taken) - 1, taken: taken})
+				break
+			}
+		}
+	}
+	// keep only the outermost ones
+	var keep []*countedLoop
+	for _, l := range out {
+		inner := false
+		for _, m := range out {
+			if m != l && m.body[l.header] {
+				inner = true
+			}
+		}
+		if !inner {
+			keep = append(keep, l)
+		}
+	}
+	return keep
 }
 
 // edgeKept applies gate evaluation and error-edge pruning to successor si of an If.
@@ -520,4 +735,13 @@ func normaliseRaw(a, b *nfa) {
 			}
 		}
 	}
+}
+
+// intConstOf returns the value of an integer constant (conversions stripped).
+func intConstOf(v ssa.Value) (int64, bool) {
+	c, ok := stripConv(v).(*ssa.Const)
+	if !ok || c.Value == nil || c.Value.Kind() != constant.Int {
+		return 0, false
+	}
+	return c.Int64(), true
 }
